@@ -58,6 +58,11 @@ def gen_case(rng, ci, quick):
         ops += ["P:%d:%s" % (k, hx(b)), "Y"]
         if rng.random() < 0.2:
             ops += ["T:%d" % k]
+    # DELETE with a quit message carrying control characters (deletesession.go cuts it the same way)
+    k = rng.randrange(ns)
+    qm = rng.choice(["bye" + rng.choice(CTL) + FORGED, rng.choice(CTL) + "x", "q" * rng.randint(400, 700) + rng.choice(CTL) + FORGED,
+                     "plain quit", ""])
+    ops += ["D:%d:%s" % (k, hx(json.dumps({"Quitmessage": qm}))), "Y"]
     ops.append("Z")
     return "post c%d " % ci + " ".join(ops)
 
@@ -95,7 +100,7 @@ def monitor(ops, obs):
         if "panic" in o:
             fails.append(("driver-op-failed", "op %s failed: %s" % (tok[:80], o)))
             continue
-        if o["op"] in ("P", "I"):
+        if o["op"] in ("P", "I", "D"):
             last_post = tok
         if o["op"] == "Y" and o.get("out", "-") != "-":
             for m in o["out"].split(";"):
@@ -105,7 +110,7 @@ def monitor(ops, obs):
                 for sig, text in line_faults(data):
                     fails.append(("c15:api:" + sig, "output %s of the entry committed for POST body %r: %s; line = %r" % (
                         f[0], (unhx(last_post.split(":")[2])[:120] if last_post else b""), text, data[:200])))
-        if o["op"] in ("P", "I", "T") and o.get("grew") == "1":
+        if o["op"] in ("P", "I", "T", "D") and o.get("grew") == "1":
             ent = o["ent"].split(".")
             if len(ent) > 5:
                 data = unhx(ent[5])
